@@ -19,6 +19,8 @@ func coqDir(d string) string {
 		return "DResume"
 	case "escalate":
 		return "DEscalate"
+	case "restartall":
+		return "DRestartAll"
 	}
 	return "DStop"
 }
